@@ -124,6 +124,11 @@ def build(c, spec, prev=None):
             tx = btctx.gen_sized_tx(rng, total_len=c["sized_tx"]) or tx
         if c.get("same_tx_as_previous") and prev is not None and "tx" in prev:
             tx = prev["tx"]
+            if rng.random() < 0.4 and not tx.get("witness") and "ops" in tx:
+                # ... or a transaction that is the previous one but for one small field
+                # (what was worked out for the previous one is not about this one)
+                tx = btctx.near_variant(rng, tx)
+                out["near_copy"] = True
         nin = len(tx["ins"])
         idx = rng.choice([0, 1 % nin, nin - 1, 2**32 - 1, rng.getrandbits(32), rng.randrange(nin)])
         segwit = None
@@ -394,6 +399,8 @@ def run_case(acc, c, spec, stacks):
     b = build(c, spec, prev[1] if prev else None)
     if c.get("same_tx_as_previous"):
         acc.count("same_tx_asked_again")
+        if b.get("near_copy"):
+            acc.count("previous_tx_asked_again_with_one_small_field_changed")
     stacks[("prev", key)] = (c, b)
     st = stacks.get(key)
     if st is None:
